@@ -43,16 +43,16 @@ let dispose r =
   if !dcount mod 3 = 0 then begin fire (DCas (t, true)); fire (DLoad t); fire (DLink t) end;
   fire (DCas (t, false))
 
-let ids_of s = if s = "" then [] else List.map int_of_string (String.split_on_char ',' s)
+let ids_of s = if s = "" then [] else Stdlib.List.map int_of_string (String.split_on_char ',' s)
 
 let known : (int, unit) Hashtbl.t = Hashtbl.create 64
 let note r = Hashtbl.replace known r ()
 
-let show_list l = String.concat "," (List.map (fun r -> string_of_int (i r)) l)
+let show_list l = String.concat "," (Stdlib.List.map (fun r -> string_of_int (i r)) l)
 
 let observe () =
   let s = !st in
-  let fl = match walk s.link s.head (n 100000) with
+  let fl = match walk s.link s.head (n (Hashtbl.length known + 1)) with
     | None -> "CYCLE"
     | Some l -> if l = s.shared then show_list l else "GHOSTMISMATCH(" ^ show_list l ^ "/" ^ show_list s.shared ^ ")" in
   let pc = Hashtbl.fold (fun r () acc -> if s.status (n r) = Free then acc else acc + 1) known 0 in
@@ -68,28 +68,28 @@ let event ev =
   | 'X' -> fire (OExtract (n (int_of_string arg)))
   | 'D' -> dispose (int_of_string arg)
   | 'R' -> fire (ORemove (n (int_of_string arg), None))
-  | 'C' -> drain_all (); List.iter (fun r -> fire (ORemove (n r, None))) (ids_of arg)   (* pvDestroyRaws *)
-  | 'E' -> List.iter dispose (ids_of arg)
+  | 'C' -> drain_all (); Stdlib.List.iter (fun r -> fire (ORemove (n r, None))) (ids_of arg)   (* pvDestroyRaws *)
+  | 'E' -> Stdlib.List.iter dispose (ids_of arg)
   | 'S' -> fire (Scribble (n (int_of_string arg), Some (n 12345)))
   | 'M' | '-' -> ()
   | _ -> raise (Stuck "unknown-event")
 
-let same_set a b = List.sort compare a = List.sort compare b
+let same_set a b = Stdlib.List.sort compare a = Stdlib.List.sort compare b
 
 let run_seq evs =
   st := init; dcount := 0; Hashtbl.reset known;
   let buf = Buffer.create 256 in
   let stuck = ref false in
-  List.iter (fun ev ->
+  Stdlib.List.iter (fun ev ->
     if Buffer.length buf > 0 then Buffer.add_char buf ' ';
     if !stuck then Buffer.add_string buf (ev ^ "|skipped")
     else
       (try event ev; Buffer.add_string buf (ev ^ observe ())
        with Stuck l -> stuck := true; Buffer.add_string buf (ev ^ "|STUCK@" ^ l))) evs;
   let s = !st in
-  let idle = List.for_all (fun t -> s.dpcs (n t) = Idle) [0; 1; 2; 3; 4] in
+  let idle = Stdlib.List.for_all (fun t -> s.dpcs (n t) = Idle) [0; 1; 2; 3; 4] in
   let q = idle && s.own = OIdle && s.head = None && same_set s.disposed s.reclaimed in
-  Buffer.add_string buf (Printf.sprintf " end|disp=%d|recl=%d|q=%d" (List.length s.disposed) (List.length s.reclaimed) (if q then 1 else 0));
+  Buffer.add_string buf (Printf.sprintf " end|disp=%d|recl=%d|q=%d" (Stdlib.List.length s.disposed) (Stdlib.List.length s.reclaimed) (if q then 1 else 0));
   print_endline (Buffer.contents buf)
 
 (* ---------------------------------------------------------------- control skeleton by probing *)
@@ -101,7 +101,7 @@ let okn s = ok_names.(i (opc_kind s.own))
 let prog () =
   let get = function Some s -> s | None -> failwith "probe schedule disabled" in
   let edges = ref [] in
-  let add e = if not (List.mem e !edges) then edges := e :: !edges in
+  let add e = if not (Stdlib.List.mem e !edges) then edges := e :: !edges in
   (* disposer 1 with row 0; disposer 2 with row 1 to make the head move under disposer 1 *)
   let s0 = get (run init [OAlloc (n 0, None); OAlloc (n 1, None)]) in
   let dlabels = [DBegin (n 1, n 0); DLoad (n 1); DLink (n 1); DCas (n 1, false); DCas (n 1, true)] in
@@ -114,7 +114,7 @@ let prog () =
          (match s.dpcs (n 1) with
           | Linked (_, h) ->
               if s'.head = Some r && s.head = h && not sp then ":ok[head==h;head:=own]"
-              else if s'.head = s.head && s'.link = s.link then (if sp then ":fail[spurious]" else if s.head <> h then ":fail[head!=h]" else ":fail[?]")
+              else if s'.head = s.head && s'.link == s.link then (if sp then ":fail[spurious]" else if s.head <> h then ":fail[head!=h]" else ":fail[?]")
               else "[?]"
           | _ -> "[?]")
      | _ -> "") in
@@ -123,7 +123,7 @@ let prog () =
     let key = (dk s 1, s.head) in
     if depth < 12 && not (Hashtbl.mem seen key) then begin
       Hashtbl.add seen key ();
-      List.iter (fun l -> match step s l with
+      Stdlib.List.iter (fun l -> match step s l with
         | Some s' -> add (Printf.sprintf "disposer: %s -%s%s-> %s" dk_names.(dk s 1) (lname l) (effect s s' l) dk_names.(dk s' 1)); explore s' (depth + 1)
         | None -> ()) dlabels;
       (* let disposer 2 publish row 1 in between *)
@@ -146,12 +146,12 @@ let prog () =
     let key = (s.own, s.status (n 3), s.status (n 2), s.status (n 4)) in
     if depth < 12 && not (Hashtbl.mem oseen key) then begin
       Hashtbl.add oseen key ();
-      List.iter (fun l -> match step s l with
+      Stdlib.List.iter (fun l -> match step s l with
         | Some s' -> add (Printf.sprintf "owner: %s -%s%s-> %s" (okn s) (lname l) (oeffect s s' l) (okn s')); oexplore s' (depth + 1)
         | None -> ()) olabels
     end in
   oexplore s1 0;
-  List.iter print_endline (List.sort compare !edges)
+  Stdlib.List.iter print_endline (Stdlib.List.sort compare !edges)
 
 let () =
   if Array.length Sys.argv > 1 && Sys.argv.(1) = "prog" then prog ()
